@@ -73,7 +73,7 @@ fn main() {
             let prop = v["property"].as_str().expect("property");
             let tier = Tier::parse(v["tier"].as_str().unwrap_or("quick"));
             let def = props::build(prop, tier).expect("property");
-            let code = framework::replay_main(&def, v["space"].as_u64().unwrap() as usize, v["case"].as_u64().unwrap());
+            let code = framework::replay_main(&def, v["space"].as_u64().unwrap() as usize, v["case"].as_u64().unwrap(), v["detail"].as_str().unwrap_or(""));
             std::process::exit(code);
         }
         "dump" => {
